@@ -107,3 +107,86 @@ Proof.
   destruct Hacc as (a' & -> & Ht). exists (render f), a'. split; [exact Hw|]. split; [exact Hr|].
   rewrite Ht. exact Hden.
 Qed.
+
+(** * exact acceptance, relational form (DESIGN section 5 C10): for a well-formed UTF-8 string [s],
+    [parse_from_rfc3339 s = Ok v] iff there are fields with [G3339 fields s], valid, denoting [v];
+    otherwise the result is an [Err] *)
+Theorem accept_exact_rel s : utf8_valid s = true ->
+  (forall a, parse_from_rfc3339 s = Val (POk a) ->
+     exists f, G3339 f s /\ valid f = true /\ tuple_of a = denote f) /\
+  (forall f, G3339 f s -> valid f = true ->
+     exists a, parse_from_rfc3339 s = Val (POk a) /\ tuple_of a = denote f) /\
+  ((forall f, G3339 f s -> valid f = false) -> exists e, parse_from_rfc3339 s = Val (PErr e)).
+Proof.
+  intros Hv. destruct (accept_exact s Hv) as (r & Hr & Hacc). unfold accepts in Hacc.
+  split; [|split].
+  - intros a Ha. rewrite Hr in Ha. injection Ha as ->.
+    destruct (recognise s) as [f|] eqn:Er.
+    + destruct (valid f) eqn:Evf.
+      * destruct Hacc as (a' & Heq & Ht). injection Heq as <-. exists f. split; [apply recognise_sound; exact Er|]. split; [exact Evf|exact Ht].
+      * destruct Hacc as (e & He). discriminate.
+    + destruct Hacc as (e & He). discriminate.
+  - intros f Hg Hvf. apply recognise_iff in Hg. rewrite Hg, Hvf in Hacc.
+    destruct Hacc as (a & -> & Ht). exists a. split; [exact Hr|exact Ht].
+  - intros Hall. destruct (recognise s) as [f|] eqn:Er.
+    + rewrite (Hall f (recognise_sound s f Er)) in Hacc. destruct Hacc as (e & ->). exists e. exact Hr.
+    + destruct Hacc as (e & ->). exists e. exact Hr.
+Qed.
+
+(** * scan::timezone_offset (RFC 3339 call) is the inverse of OffsetFormat::format *)
+Lemma rec_zone_render_app z rest : wf_zone z = true -> rec_zone (render_zone z ++ rest) = Some (z, rest).
+Proof.
+  destruct z as [c|sg hh mm]; cbn [render_zone wf_zone]; intros H.
+  - unfold rec_zone. cbn [app]. rewrite H. reflexivity.
+  - unfold is2 in H. assert (Hsg : sg = 0 \/ sg = 1 \/ sg = 2) by lia.
+    assert (Hn : rec_numeric sg ((two hh ++ [58] ++ two mm) ++ rest) = Some (Numeric sg hh mm, rest)).
+    { unfold rec_numeric. rewrite <- !app_assoc. rewrite take2_render by lia. cbn [obind app expect]. rewrite Z.eqb_refl. cbn [obind].
+      rewrite take2_render by lia. reflexivity. }
+    destruct Hsg as [->|[->| ->]]; unfold rec_zone, render_sign; cbn [Z.eqb app orb andb Pos.eqb];
+      rewrite <- app_assoc in Hn; exact Hn.
+Qed.
+Theorem timezone_offset_inverts_format w off use_z rest :
+  -86400 < off < 86400 -> off mod 60 = 0 -> utf8_valid rest = true ->
+  exists t, offset_format_format (mk_of 1 1 use_z 1) w off = Val (Some (w ++ t)) /\
+            timezone_offset (t ++ rest) (fun s => char s 58) true false true = Val (POk (rest, off)).
+Proof.
+  intros Ho Hm Hr. exists (render_zone (zone_of off use_z)). split; [apply offset_format_rfc3339; assumption|].
+  set (z := zone_of off use_z).
+  assert (Hz : wf_zone z = true /\ zone_min_ok z = true /\ zone_offset z = off /\
+               match z with Zulu _ => True | Numeric sg _ _ => sg = 0 \/ sg = 1 end).
+  { subst z. unfold zone_of. destruct (use_z && (off =? 0)) eqn:E; [cbn; repeat split; lia|].
+    cbn [wf_zone zone_min_ok zone_offset]. unfold is2. destruct (off <? 0) eqn:En; cbn [Z.eqb]; repeat split; lia. }
+  destruct Hz as (Hz1 & Hz2 & Hz3 & Hz4). clearbody z.
+  assert (Hv : utf8_valid (render_zone z ++ rest) = true).
+  { rewrite utf8_valid_app_ascii; [exact Hr|].
+    destruct z as [c|sg hh mm]; cbn [render_zone wf_zone] in *.
+    - repeat constructor; lia.
+    - unfold is2 in Hz1. repeat apply Forall_app_intro; try (apply two_ascii; lia); try (repeat constructor; lia).
+      unfold render_sign. destruct (sg =? 0) eqn:E0; [repeat constructor; lia|]. destruct (sg =? 1) eqn:E1; [repeat constructor; lia|lia]. }
+  rewrite timezone_offset_colon_ok by exact Hv.
+  destruct (tz_rel (render_zone z ++ rest)) as [e He]. rewrite He, rec_zone_render_app by exact Hz1.
+  rewrite Hz2, Hz3. reflexivity.
+Qed.
+
+(** * the hypotheses are inhabited: a worked value *)
+Example roundtrip_example :
+  exists a, dec_dtz (value 1996 354 2397 500000000 (-28800)) = Some a /\ writer_domain 1996 354 2397 500000000 (-28800) 4 /\
+  render (fields_of 1996 354 2397 500000000 (-28800) 4 true) = B"1996-12-18T16:39:57.500-08:00".
+Proof.
+  eexists. split; [vm_compute; reflexivity|]. split; [|vm_compute; reflexivity].
+  unfold writer_domain. repeat split; try (vm_compute; intros; congruence); try lia.
+Qed.
+Example accept_example : accepts B"1990-12-31T23:59:60Z" = Some (1990, 365, 86399, 1000000000, 0)
+  /\ accepts B"2015-02-18T23:16:09+24:00" = None /\ utf8_valid B"1990-12-31T23:59:60Z" = true.
+Proof. vm_compute. repeat split. Qed.
+
+Theorem to_rfc3339_main y o secs frac off a :
+  dec_dtz (value y o secs frac off) = Some a -> writer_domain y o secs frac off 4 ->
+  to_rfc3339 a = Val (render (fields_of y o secs frac off 4 false)).
+Proof.
+  intros Hdec (Hm & Hsf & Hl & Hy).
+  destruct (dec_dtz_inv _ _ _ _ _ _ Hdec) as (dt & -> & Hr & Hs & Hf & Ho).
+  pose proof Hr as (_ & Hvo & _).
+  assert (Hg : good dt (dn_of_yo y o)) by (exists y, o; split; [exact Hr|reflexivity]).
+  exact (to_rfc3339_ok good good_facts y o dt secs frac off Hvo Hg Hs Hf Hl Ho Hm Hy).
+Qed.
